@@ -9,6 +9,7 @@ M = json.loads((V / "seeded" / "crossmatrix.json").read_text())
 T = json.loads((V / "seeded" / "targetsweep.json").read_text()) if (V / "seeded" / "targetsweep.json").exists() else {}
 PIDS = ["C%02d" % i for i in range(1, 21)]
 STRENGTHENED = {
+ "C13-r": "faulty callbacks that raise StopIteration / KeyError (not only the harness exception), and the repeat of the call made with the SAME callback object, now well-behaved (had been a broken tie with no failing input)",
  "C02-b": "`_container`: one-shot iterables as `universes=`", "C06-b": "two-phase traversal legs", "C07-b": "two-phase traversal legs",
  "C01-b": "UNL biased to joined pairs", "C05-a": "scenario generator + falsy vertices", "C05-b": "scenario generator + falsy vertices",
  "C13-b": "fresh world per entry point + uncached-truth view", "C14-b": "per-class title formats, rows carry the title classes",
@@ -59,8 +60,11 @@ STRENGTHENED = {
  "C07-d": "oracle: neighbors() itself judged against the link order of the snapshot (`travh.spec_neighbors`; was tie-only until round 8)",
  "C07-f": "oracle: neighbors() itself judged against the link order of the snapshot (was tie-only until round 8)",
  "C16-d": "oracle: the FORWARD neighbours of every member judged against the link order of the snapshot (was tie-only until round 8)",
+ "C10-r": "lists / dicts of plain numbers SHARED between two attributes of one vertex, inside one record, between vertices, a row repeated in a matrix; the snapshot compares the identity pattern of mutable containers inside attribute values",
+ "C15-r": "vertices that compare EQUAL without being identical (`TwinV`: finished VSub vertices become value-equal twins before the export; members and look-alike outsiders)",
+ "C17-r": "metaclasses DERIVED from the generated semi-singleton metaclass (`class Meta(Base): pass`)",
  "C06-p": "NOT caught, and not a violation on the domain: `uni not in start.universes` equals `start not in uni.vertices` in every state the public API can reach (C02); its demo needs a `copy.copy` ghost or value-equal twins (boundary, 12.3)"}
-ROUND = {"a": 1, "b": 1, "c": 2, "d": 3, "e": 4, "f": 5, "g": 6, "h": 6, "i": 7, "j": 7, "k": 7, "l": 7, "p": 8, "q": 8}
+ROUND = {"a": 1, "b": 1, "c": 2, "d": 3, "e": 4, "f": 5, "g": 6, "h": 6, "i": 7, "j": 7, "k": 7, "l": 7, "p": 8, "q": 8, "r": 9}
 
 rows, per_round = [], {}
 for sd in sorted((V / "seeded").iterdir()):
@@ -109,7 +113,7 @@ for sd in sorted((V / "seeded").iterdir()):
 clean = M.get("(clean tree)", {})
 clean_ok = all(v == "-" for v in clean.values()) and len(clean) == 20
 tally = ", ".join(f"{s} of {n} in round {r}" for r, (n, s) in sorted(per_round.items()))
-text = f"""Eight rounds of seeded changes (variants `a`+`b` = round 1, `c` = round 2, `d` = round 3, `e` = round 4, `f` = round 5, `g`+`h` = round 6: one- to three-line slips, `i`-`l` = round 7 and `p`+`q` = round 8: aimed at the files (7) and functions (8) the earlier rounds had left alone; {len(rows)} in
+text = f"""Nine rounds of seeded changes (variants `a`+`b` = round 1, `c` = round 2, `d` = round 3, `e` = round 4, `f` = round 5, `g`+`h` = round 6: one- to three-line slips, `i`-`l` = round 7 and `p`+`q` = round 8: aimed at the files (7) and functions (8) the earlier rounds had left alone, `r` = round 9: two cooperating sites / multi-step or unusual-shape triggers, one per property; {len(rows)} in
 all), every one written by a fresh sub-agent that saw only the property text and a scratch worktree (later rounds also a one-line
 list of the earlier ideas and idea families, to be avoided), and kept only after `tools/evalseed.py` had confirmed in a scratch
 worktree that it applies, that the unedited suite still reports `652 passed`, and that its demo fails with it and passes without.
@@ -122,7 +126,7 @@ on every state the public API can reach (its demo builds a `copy.copy` ghost). C
 broke and the property's own oracle found nothing - typical for a check whose model shares the changed code but whose property the
 change does not break. The target's own column is from the latest `tools/crossmatrix.py --target-only` on HEAD (`seeded/targetsweep.json`); the other
 columns, for variants a-d, from the full run of every quick check against every seed on scratch copies made after round 3
-(`seeded/crossmatrix.json`; a full run takes 5-8 hours and was not repeated for rounds 4 to 8); the row for the unchanged tree
+(`seeded/crossmatrix.json`; a full run takes 5-8 hours and was not repeated for rounds 4 to 9); the row for the unchanged tree
 has {'no alarm' if clean_ok else 'ALARMS - see the json'} in both files. "strengthened" names what had to be added to the
 harness before the seed was caught: {tally}; each addition is a generator / oracle generalisation, none special-cases a seed. The
 shrunk failing cases are kept as `corpus/<pid>/` and run first on every check.
